@@ -371,10 +371,10 @@ func applyHist(c *Case, s *site, cfg *ucfg.Config, baseData interface{}, classes
 		switch e.Meta {
 		case "":
 			if c.Meta != "" {
-				opts = append(opts, ucfg.MetaData(ucfg.Meta{Source: c.Meta}))
+				opts = append(opts, c.metaOpts(c.Meta)...)
 			}
 		case "other":
-			opts = append(opts, ucfg.MetaData(ucfg.Meta{Source: histSource}))
+			opts = append(opts, c.metaOpts(histSource)...)
 			classes["history: an editing call names another source"] = true
 		}
 		handle := func() (*ucfg.Config, error) {
